@@ -18,7 +18,8 @@ EXPLANATION = (
     "every numeric result VAL builds is negated exactly on the negative side of its sign test; (R5) UCASE$ / LCASE$ use the whole-string ASCII fold of the standard library, or their own character function maps all 128 ASCII characters as stated (evaluated per character)."
     " (R6) a built-in function writes to the variables of its call only through the result setter: it leaves its arguments, which are written back to the caller's variables when passed by reference, as it found them."
     " (R7 = C12.R16) the VM does not tell the numeric types apart when it decides on Type mismatch; (R8) LTRIM$ / RTRIM$ trim with the blank character as pattern, not with the std white-space trims; (R9) the code of CHR$ is range-tested before it is narrowed to a byte."
-    " (R10) STR$ formats with plain Display only and adds no text outside the alphabet VAL reads (no exponent formatter, no letters).")
+    " (R10) STR$ formats with plain Display only and adds no text outside the alphabet VAL reads (no exponent formatter, no letters)."
+    " (R11) the limit on the length of a string is inclusive: the guard in front of every Out of string space, evaluated on the three orderings of length and MAX_STRING_LENGTH, makes the string below and at the limit and refuses it above.")
 NOT_DECIDED = [
     "LEFT$/RIGHT$/MID$ substring equations, INSTR minimality, LEN additivity, UCASE$/LCASE$/LTRIM$/RTRIM$ "
     "laws, SPACE$ = STRING$, VAL(STR$(k)) = k (value-level string arithmetic)",
